@@ -190,6 +190,9 @@ class Terminal(ClientMessageSink):
     context.completions.append((loop.now(), msg))
     if context.done is not None:
       context.done.set()
+    hook, context.on_done = getattr(context, 'on_done', None), None
+    if hook is not None:
+      hook()      # a sink above the balancer that issues the next request from inside the response path (retry, chaining)
 
 
 class Req(object):
@@ -623,6 +626,12 @@ class LBRun(object):
       m = MethodReturnMessage(error=Exception('server error'))
     else:
       m = MethodReturnMessage('ok')
+    if kind == 'reply_chain' and self.is_open():
+      def chained():
+        self.account_completions()
+        self.flags.add('dispatch_from_response_path')
+        self.op_dispatch()
+      r.on_done = chained
     if r.channel.removed_at is not None:
       self.flags.add('completion_on_removed')
     try:
